@@ -19,6 +19,9 @@ func init() { register("recon", reconComp{}) }
 
 func (reconComp) Exec(op string) (string, string, string, bool) {
 	f := strings.Fields(op)
+	if len(f) == 3 && f[2] == "swap" {
+		return reconSwap(f[0], f[1])
+	}
 	if len(f) != 2 {
 		return "bad-op", "", "bad", false
 	}
@@ -43,7 +46,15 @@ func (reconComp) Exec(op string) (string, string, string, bool) {
 			}
 		}
 		if !ok {
-			return "fail", fmt.Sprintf("round %d: no echo after the carrier was cut and the client had to connect again: %v", i, lastErr), f[0], false
+			why := fmt.Sprintf("round %d: no echo after the carrier was cut and the client had to connect again: %v", i, lastErr)
+			wantTLS := f[0] == "tcptls" || f[0] == "wss"
+			for k, b := range rig.Relay.FirstBytes() {
+				if b >= 0 && (b == 0x16) != wantTLS {
+					why = fmt.Sprintf("physical connection %d of a %s upstream started with byte 0x%02x: the transport differs from the scheme's (TLS expected: %v); ", k+1, f[0], b, wantTLS) + why
+					break
+				}
+			}
+			return "fail", why, f[0], false
 		}
 		rig.Relay.Cut()
 		time.Sleep(150 * time.Millisecond)
@@ -77,12 +88,85 @@ func (reconComp) Exec(op string) (string, string, string, bool) {
 	return fmt.Sprintf("ok all-%s=%v", want, all), mon, f[0], all
 }
 
+// `recon <carrier> <rounds> swap` (TLS carriers): after <rounds> good rounds the endpoint behind the upstream's address
+// starts to speak plain text (a plain server with the same channels takes its place) and the carrier is cut.  The
+// upstream is still configured for TLS, so it must not complete a session there: the application gets no echo and its
+// payload never shows on the carrier.  result: `ok swapped=refused` | `fail swapped=<what happened>`
+func reconSwap(carrier, roundsTok string) (string, string, string, bool) {
+	rounds := 0
+	fmt.Sscanf(roundsTok, "%d", &rounds)
+	plain := map[string]string{"tcptls": "tcp", "wss": "ws"}[carrier]
+	if plain == "" || rounds < 1 {
+		return "bad-op", "", "bad", false
+	}
+	rig, err := NewRig(RigOpts{Carrier: carrier, Insecure: true, Relay: true})
+	if err != nil {
+		return "fail:rig", err.Error(), "fail", false
+	}
+	defer rig.Close()
+	other, err := NewRig(RigOpts{Carrier: plain, Insecure: true})
+	if err != nil {
+		return "fail:rig", err.Error(), "fail", false
+	}
+	defer other.Close()
+	for i := 0; i < rounds; i++ {
+		c, err := echoOnce(rig, 32, uint64(i), 5*time.Second)
+		if err != nil {
+			return "fail:conn", fmt.Sprintf("round %d: %v", i, err), "fail", false
+		}
+		c.Close()
+		if i+1 < rounds {
+			rig.Relay.Cut()
+			time.Sleep(150 * time.Millisecond)
+		}
+	}
+	before := len(rig.Relay.FirstBytes())
+	rig.Relay.SetTarget(other.ServerAddr)
+	rig.Relay.Cut()
+	time.Sleep(150 * time.Millisecond)
+	established := false
+	secret := payload(4242, 48)
+	for try := 0; try < 3 && !established; try++ {
+		c, err := rig.Dial("echo")
+		if err != nil {
+			continue
+		}
+		if writeParts(c, secret, 0, 2*time.Second) == nil {
+			if got, err := readFullDeadline(c, len(secret), 2*time.Second); err == nil && string(got) == string(secret) {
+				established = true
+			}
+		}
+		c.Close()
+		time.Sleep(100 * time.Millisecond)
+	}
+	up, _, _ := rig.Relay.Captured()
+	clear := strings.Contains(string(up), string(secret))
+	firstPlain := false
+	for _, b := range rig.Relay.FirstBytes()[before:] {
+		if b >= 0 && b != 0x16 {
+			firstPlain = true
+		}
+	}
+	switch {
+	case established || clear:
+		return fmt.Sprintf("fail swapped=established:%v payload-in-clear:%v", established, clear),
+			fmt.Sprintf("a %s upstream, after its carrier was lost, completed a session with an endpoint that speaks plain text (echo received: %v, application payload readable on the carrier: %v): an endpoint configured for TLS completed a plaintext session", carrier, established, clear), carrier + " swap", false
+	case firstPlain:
+		return "fail swapped=plaintext-attempt",
+			fmt.Sprintf("a %s upstream, connecting again after its carrier was lost, opened its physical connection in plain text (first byte is not a TLS record)", carrier), carrier + " swap", false
+	}
+	return "ok swapped=refused", "", carrier + " swap", true
+}
+
 func (reconComp) Gen(r *Rand, tier string, emit func(string)) {
+	emit("tcptls 2 swap")
 	emit("tcptls 3")
 	emit("tcp 2")
 	emit("wss 2")
 	if tier == "thorough" {
 		emit("tcptls 6")
+		emit("wss 2 swap")
+		emit("tcptls 1 swap")
 		emit("starttls 3")
 		emit("ws 3")
 	}
